@@ -13,6 +13,14 @@ pub broadcast proof fn lemma_trunc_floor_int(v: real)
         if v == ir(v.floor()) { assert(-v == ir(-(v.floor()))); assert((-v).floor() == -(v.floor())); }
     }
 }
+// reducing one summand first does not change a sum modulo n (Cycle indexing)
+pub broadcast proof fn lemma_mod_add_reduced(i: int, k: int, n: int)
+    requires n > 0, 0 <= k < n
+    ensures #[trigger] ((i % n + k) % n) == (i + k) % n
+{
+    vstd::arithmetic::div_mod::lemma_add_mod_noop(i, k, n);
+    vstd::arithmetic::div_mod::lemma_small_mod(k as nat, n as nat);
+}
 // sequence concatenation is associative (for the hasher's word log)
 pub broadcast proof fn lemma_hwords_assoc(a: VSeq<HWord>, b: VSeq<HWord>, c: VSeq<HWord>)
     ensures #[trigger] ((a + b) + c) == a + (b + c)
